@@ -18,6 +18,12 @@ def parseExc : String → R ParseExc
   | "ipcError" => pure .ipcError | "ipcErrorLate" => pure .ipcErrorLate | "unicodeDecode" => pure .unicodeDecode | "stopIteration" => pure .stopIteration
   | s => throw s!"parse exception class {s}"
 
+def deserExc : String → R DeserExc
+  | "keyError" => pure .keyError | "valueError" => pure .valueError | "overflowError" => pure .overflowError
+  | "typeError" => pure .typeError | "arrowInvalid" => pure .arrowInvalid | "ipcError" => pure .ipcError | "other" => pure .other
+  | "osError" => pure .osError | "stopIteration" => pure .stopIteration
+  | s => throw s!"deserialisation exception class {s}"
+
 def metaDefect : String → R MetaDefect
   | "noMethodKey" => pure .noMethodKey | "badMethodUtf8" => pure .badMethodUtf8 | "noVersionKey" => pure .noVersionKey
   | "badVersion" => pure .badVersion | "methodMismatch" => pure .methodMismatch | "protocolVersion" => pure .protocolVersion
@@ -32,10 +38,11 @@ def body (s : String) : R Body :=
   | ["cancel"] => pure .cancel
   | ["parseFail", e] => do pure (.parseFail (← parseExc e))
   | ["badMeta", m] => do pure (.badMeta (← metaDefect m))
+  | ["badValue", e] => do pure (.badValue (← deserExc e))
   | _ => throw s!"body {s}"
 
 def ctype : String → R CType
-  | "correct" => pure .correct | "wrong" => pure .wrong | "missing" => pure .missing
+  | "correct" => pure .correct | "wrong" => pure .wrong | "missing" => pure .missing | "wrongExtends" => pure .wrongExtends
   | s => throw s!"ctype {s}"
 
 def cenc : String → R CEnc
